@@ -518,11 +518,15 @@ func genAdvertise(repo string) *leanFile {
 		found := false
 		ast.Inspect(fd.Body, func(n ast.Node) bool {
 			c, ok := n.(*ast.CallExpr)
-			if !ok || exprString(c.Fun) != "make" || len(c.Args) != 2 {
+			if !ok || exprString(c.Fun) != "make" || len(c.Args) < 1 || len(c.Args) > 2 {
 				return true
 			}
 			if exprString(c.Args[0]) == "<*ast.ChanType>" || strings.Contains(fmt.Sprintf("%T", c.Args[0]), "ChanType") {
-				if v, err := e.eval(c.Args[1]); err == nil {
+				if len(c.Args) == 1 {
+					// unbuffered
+					l.Nat("ipCCap", 0, "advertise(): make(chan netip.Addr)")
+					found = true
+				} else if v, err := e.eval(c.Args[1]); err == nil {
 					l.Nat("ipCCap", v, "advertise(): make(chan netip.Addr, N)")
 					found = true
 				}
